@@ -112,7 +112,7 @@ type World struct {
 	InitialHeaders []string       // sids (or "?") for which initial_headers fired
 	HeadersEv      int
 	hdrHook        func(name string, h map[string][]string, req *types.HttpContext)
-	MsgHook        func(sr *SessRec, p Pkt) // called (under w.mu) for every message event
+	MsgHook        func(sr *SessRec, p Pkt) // called for every message event, in the listener, outside w.mu
 }
 
 func (w *World) Failf(format string, a ...any) {
@@ -181,15 +181,14 @@ func (w *World) attachServerListeners() {
 		for _, name := range socketEvents {
 			name := name
 			sock.On(types.EventName(name), func(a ...any) {
+				var msgHook func(*SessRec, Pkt)
 				w.mu.Lock()
 				ev := Ev{At: w.now(), Sid: sr.Sid, Name: name, State: sock.ReadyState()}
 				switch name {
 				case "message":
 					ev.Msg = bufToPkt(first(a))
 					sr.Msgs = append(sr.Msgs, *ev.Msg)
-					if w.MsgHook != nil {
-						w.MsgHook(sr, *ev.Msg)
-					}
+					msgHook = w.MsgHook
 				case "data":
 					ev.Msg = bufToPkt(first(a))
 					sr.Datas = append(sr.Datas, *ev.Msg)
@@ -222,6 +221,10 @@ func (w *World) attachServerListeners() {
 				sr.Events = append(sr.Events, ev)
 				w.Log = append(w.Log, ev)
 				w.mu.Unlock()
+				if msgHook != nil {
+					// outside the lock: the hook may block (a slow application listener)
+					msgHook(sr, *ev.Msg)
+				}
 			})
 		}
 		if w.OnConn != nil {
